@@ -17,6 +17,18 @@ def run_case(c):
     dom = getattr(d, "coordinates_domain", None)
     nested = getattr(d, "coordinates_domain_nested", None)
     out = {"ok": True, "counts": [len(f) for f in dom] if dom is not None else [[len(f) for f in l] for l in nested], "runs": []}
+    if c.get("want_extents"):
+        import numpy as np
+
+        def ext(f):
+            a = np.asarray([[float(x), float(y)] for x, y in f], dtype=float)
+            md = None
+            if 1 < len(a) <= 700:
+                d2 = ((a[:, None, :] - a[None, :, :]) ** 2).sum(-1)
+                d2[np.arange(len(a)), np.arange(len(a))] = np.inf
+                md = float(np.sqrt(d2.min()))
+            return [float(a[:, 0].min()), float(a[:, 1].min()), float(a[:, 0].max()), float(a[:, 1].max()), md, len(a)]
+        out["extents"] = [ext(f) for f in dom] if dom is not None else [[ext(f) for f in l] for l in nested]
     orig = (sr.Bisection1D.calculate_excess, sr.Bisection1D.initialize_ghe)
     state = {}
 
